@@ -2,7 +2,7 @@
    object_raw_bencode.h). Definitions only. The model follows the code as it is after the three
    "fix:" commits recorded in known_findings.txt (integer / string-length overflow checks, digits
    required), including the quirks that remain (istream number parsing liberalities, uint32
-   length arithmetic, raw_bencode::is_raw_map's ">= 'd'" test).
+   length arithmetic, (raw_bencode type tests are exact since the fix)).
 
    Input positions: a decoder works on the remaining input (list of bytes = [first,last) ).
    Every dereference the code performs WITHOUT a preceding first != last test is modelled as
@@ -442,8 +442,8 @@ Definition raw_c (k : raw_kind) (l : bytes) : res (option bytes) :=
       | RawS => if (2 <=? size) && is_digit c0
                 then match after_colon raw with Some s => Ok (Some s) rest | None => Fault end
                 else Ok None rest
-      | RawL => if (2 <=? size) && (ch_l <=? c0) then Ok (Some (strip_ends raw)) rest else Ok None rest
-      | RawM => if (2 <=? size) && (ch_d <=? c0) then Ok (Some (strip_ends raw)) rest else Ok None rest
+      | RawL => if (2 <=? size) && (c0 =? ch_l) then Ok (Some (strip_ends raw)) rest else Ok None rest
+      | RawM => if (2 <=? size) && (c0 =? ch_d) then Ok (Some (strip_ends raw)) rest else Ok None rest
       end
   | Reject => Reject | Fault => Fault | OutOfFuel => OutOfFuel
   end.
